@@ -1,5 +1,5 @@
 import Driver.Util
-import SqliteDissect.Model.Wal
+import SqliteDissect.Model.History
 
 namespace Driver.Db
 open SqliteDissect SqliteDissect.Model Driver
@@ -154,6 +154,35 @@ def dumpHistory (cfg : Config) (dbFile : Buf) (walFile : Option Buf) (withTrees 
           | none => []
         "ok " ++ joinWith "\x02" (walSecs ++ [s!"nversions={vs.length}"] ++ vs.flatMap fun (ver, v) => showVersion cfg ver v withTrees)
 
+def fnv (l : List Nat) : Nat :=
+  l.foldl (fun h b => ((h ^^^ b) * 1099511628211) % 18446744073709551616) 14695981039346656037
+
+def showHCell (c : Cell) : String := s!"{optS toString c.rowid}/{fnv c.digest}"
+
+def showCommit (c : Commit) : String :=
+  s!"C{c.version}:root{c.rootPage}:upd{b01 c.bTreeUpdated}:pages[{natList c.pageNumbers}]:updpages[{natList c.updatedPageNumbers}]:A[{joinWith "," (c.added.map showHCell)}]:U[{joinWith "," (c.updated.map showHCell)}]:D[{joinWith "," (c.deleted.map showHCell)}]"
+
+/-- get_version_history_iterator(name, VersionHistory(db, wal)) iterated to the end -/
+def dumpIter (cfg : Config) (dbFile : Buf) (walFile : Option Buf) (name : List Nat) (isTable : Bool) : String :=
+  match openDatabase cfg dbFile with
+  | .error e => "db:" ++ errStr e
+  | .ok (db, dbv) =>
+    let walR : Py (Option Wal) := match walFile with
+      | none => .ok none
+      | some wf => (openWal cfg.givenWalSize wf).map some
+    match walR with
+    | .error e => "wal:" ++ errStr e
+    | .ok w =>
+      match versionHistory cfg db dbv w with
+      | .error e => "vh:" ++ errStr e
+      | .ok vs =>
+        match db.schema.entries.filter (fun e => e.name = name) |>.getLast? with
+        | none => "err keyError"
+        | some e =>
+          match iterateEntry cfg.frames isTable vs e.ident with
+          | .error er => "iter:" ++ errStr er
+          | .ok cs => "ok " ++ joinWith "\x02" (cs.map showCommit)
+
 def handle (toks : List String) : IO (Option String) := do
   match toks with
   | "db.dump" :: path :: rest =>
@@ -162,6 +191,14 @@ def handle (toks : List String) : IO (Option String) := do
   | "db.open" :: path :: rest =>
     let data ← IO.FS.readBinFile path
     pure (some (dumpDb (parseCfg rest) (Buf.ofByteArray data) false))
+  | "vh.iter" :: path :: walPath :: nameHex :: kind :: rest =>
+    let data ← IO.FS.readBinFile path
+    let wdata ← (if walPath = "-" then pure none else do
+      let d ← IO.FS.readBinFile walPath
+      pure (some (Buf.ofByteArray d)))
+    match parseHex nameHex with
+    | none => pure none
+    | some nm => pure (some (dumpIter (parseCfg rest) (Buf.ofByteArray data) wdata nm (kind = "table")))
   | "vh.dump" :: path :: walPath :: rest =>
     let data ← IO.FS.readBinFile path
     let wdata ← (if walPath = "-" then pure none else do
